@@ -6,9 +6,9 @@ props = [json.loads(l) for l in open(os.path.join(V, "properties.jsonl"))]
 
 CLAIMS = {
  "C01": ("signer-set provenance, complete reductions and role wiring in sign/aggregate/share verification; the signer's share formula, the share check and the final verification equation agree as terms (code is its own oracle)",
-         "Lagrange identity, field/group arithmetic and hashes are not decided", "§4 C01", "MIR term provenance + loop-shape (reduction) rules + sibling term agreement"),
+         "Lagrange identity, field/group arithmetic and hashes are not decided", "§4 C01", "MIR term provenance + unified reduction/mapping views (loop or iterator form) + path-sensitive per-iteration transfer of accumulators (Lagrange kernel) + sibling term agreement in a polynomial normal form"),
  "C02": ("composition and order of every hash preimage and encoding against a table transcribed from RFC 9591 / BIP-340, RFC domain-separation tags per ciphersuite, ordered container and full-width identifier ordering; NOT value equality with an independent implementation",
-         "RFC transcription table is trusted; numeric values are not decided", "§4 C02", "byte-sequence terms of preimages compared with an RFC table"),
+         "RFC transcription table is trusted; numeric values are not decided", "§4 C02", "byte-sequence terms and digest normal form (algorithm, ordered preimage parts) compared with an RFC table; path-sensitive double-and-add kernel for identifiers"),
  "C03": ("the three count refusals at full integer width and the polynomial-size wiring hold on every path (edge separation on the CFG)",
          "cryptographic clauses (unforgeability below t) not decided", "§4 C03", "CFG edge-separation (must-pass-through) + operand provenance"),
  "C04": ("verify-before-release on every path, detect_cheater never Ok, blame wiring and scan shape",
@@ -26,9 +26,9 @@ CLAIMS = {
  "C11": ("three refusals, |H|-1 draws, complete sums, last value formula, part3 wiring", "interpolation arithmetic not decided", "§4 C11", "CFG edge-separation + term agreement"),
  "C12": ("decoder canonicity table + guards, length/version/suite-id/zero checks, constructor confinement, writer/reader field agreement",
          "dependency decoders are trusted per audited table pinned to Cargo.lock versions", "§4 C12", "impl tables read from MIR + audited dependency table"),
- "C14": ("every panic site reachable in workspace code is in a reviewed table and its guard obligation holds", "dependencies assumed not to panic except through listed APIs", "§4 C14", "panic-effect inventory over MIR (Assert terminators, panicking APIs) with guard obligations"),
+ "C14": ("every panic site reachable in workspace code is in a reviewed table and its guard obligation holds", "dependencies assumed not to panic except through listed APIs", "§4 C14", "panic-effect inventory over MIR (Assert terminators, panicking APIs) with normalised panic kinds, generic discharges and guard obligations re-checked on the CFG"),
  "C15": ("32 rng bytes per nonce from the caller's rng, two draws per pair, both hashed with the share in RFC order, per-pair draws in the loop, commitments = G*nonce", "statistical claims not decided", "§4 C15", "draw-site discipline + byte-sequence terms"),
- "C16": ("no entropy source other than the caller's rng; every secret output depends on it; per-item draws are not hoisted; distinct roles use distinct draws", "statistical independence not decided", "§4 C16", "who-may-call rule on entropy sources + draw-site inventory + may-dependence"),
+ "C16": ("no entropy source other than the caller's rng; every secret output depends on it; per-item draws are not hoisted; distinct roles use distinct draws", "statistical independence not decided", "§4 C16", "who-may-call rule on entropy sources + draw summaries (count of primitive draws, as a term over loop multiplicities, through all forwarding calls) + may-dependence"),
  "C17": ("randomizer depends on seed and every commitment; consistent shifting of all package components; delegation to the core sign/aggregate", "verification under the randomized key only: not decided", "§4 C17", "term provenance + co-dependence + reduction rules"),
  "C18": ("parity/tweak plumbing agrees across sign, share check, verify and key types; x-only codec", "acceptance by an independent BIP-340 verifier not decided", "§4 C18", "sibling term agreement under a parity predicate"),
  "C19": ("empty refusal, per-item blinder, all items, lock-step terms and matching chain order, acceptance test", "2^-128 bound not decided", "§4 C19", "CFG edge-separation + draw-in-loop + term agreement"),
@@ -67,7 +67,7 @@ m = {
            "baseline_off_cmd": "cd /repo && (cargo nextest run --workspace --no-fail-fast --offline || cargo test --workspace --no-fail-fast --offline)",
            "source_commits": [], "add_only": True},
  "engines": [{"name": "frost-sa", "path": "/verif/check", "serves_properties": [c["property_id"] for c in checks],
-              "kind_free_text": "rustc_private MIR fact extractor (driver/) + Python rule engines over the facts (sa/): CFG edge separation, operand-provenance terms, loop-shape/reduction rules, panic inventory, draw discipline, impl tables, term agreement"}],
+              "kind_free_text": "rustc_private MIR fact extractor (driver/) + Python rule engines over the facts (sa/): compositional CFG edge separation (through helpers, closures, tail values), operand-provenance terms with use-site-sensitive updates, form-independent views of reductions/mappings/sequences/digests, path-sensitive reaching-definition terms along the acyclic paths of loop bodies and closures (a dataflow pass: nothing is executed, no solver), MIR-level expansion of private helpers, panic inventory, draw summaries, impl tables, term agreement in algebraic normal forms"}],
  "checks": checks,
  "notes": "All checks are static: they rebuild facts from /repo's working tree (cached by tree hash) and never run frost code. known_findings.json lists genuine defects (open/fixed).",
  "not_applicable": na,
